@@ -5,6 +5,7 @@ import (
 	"encoding/base64"
 	"encoding/json"
 	"fmt"
+	"math/big"
 	"strings"
 	"sync"
 	"time"
@@ -115,6 +116,11 @@ func c01Build(tier mc.Tier) *c01Fixture {
 						}
 						ch := c01Chain(f, k, n)
 						cont := content(scheme, ext)
+						if ext && media == envenc.MediaCOSE {
+							// integers outside int64 inside a signed value (a plain CBOR integer below -2^63, a negative bignum): value and sign are signed
+							cont.Ext = append(cont.Ext, envenc.ExtAttr{Key: "io.example.numbers", Critical: false, Value: []any{
+								new(big.Int).Neg(new(big.Int).Lsh(big.NewInt(1), 64)), int64(-5), new(big.Int).Neg(new(big.Int).Lsh(big.NewInt(3), 70)), new(big.Int).Lsh(big.NewInt(3), 70)}})
+						}
 						spec := newEnvSpec(media, cont, k)
 						spec.chain = ders(ch)
 						spec.unprot = envenc.Unprotected{Chain: spec.chain, Agent: "verif-agent"}
